@@ -39,7 +39,12 @@ class Acc:
     if sig in self._sigs:
       return
     self._sigs.add(sig)
-    if len(self.violations) >= 40:
+    # cap per known-finding class so a flood of one class can never hide
+    # a violation of another class
+    ck = json.dumps(kf, sort_keys=True, default=str)
+    self._per_class = getattr(self, "_per_class", collections.Counter())
+    self._per_class[ck] += 1
+    if self._per_class[ck] > 12:
       self.outcomes["violations_beyond_cap"] += 1
       return
     v = {"sig": sig, "what": what}
